@@ -485,6 +485,8 @@ def r1_for_desugar(text, loop_kinds=None, chars_fn='vx_chars'):
             body = 'let %s = %s; %s += 1;' % (pat.strip(), iv, iv)
             auto = {'invariant': ['%s <= %s' % (lo, iv), '%s <= %s || %s == %s' % (iv, hi, iv, lo)],
                     'decreases': '%s - %s' % (hi, iv)}
+            if re.match(r'^\d+$', lo_e.strip()):
+                auto['invariant'].append('%s == %s' % (lo, lo_e.strip()))
         elif m_enum_chars:
             v = '__v%d' % n
             names = [p.strip() for p in pat.strip()[1:-1].split(',')]
